@@ -184,7 +184,8 @@ def corpus():
         'Py:datetime': [('var', datetime.datetime(
             2020, 1, 2, 3, 4, 5, tzinfo=datetime.timezone.utc))],
         'Py:Mapping': [('var', fd({'a': 1, 'b': 2})), ('var', fd()),
-                       ('var', fd({1: (1, 2)}))],
+                       ('var', fd({1: (1, 2)})),
+                       ('var', fd({'1st': 1, 'ok': (2,), '': 3, '__h': 4}))],
         'Py:Set': [('var', frozenset([1, 2])), ('var', frozenset()),
                    ('var', frozenset(['a']))],
         'Py:bool': [('var', True), ('var', False)],
